@@ -163,8 +163,9 @@ pub struct Host {
 impl Host {
     /// Builds a host and its first context over `disk`. `Err` = construction panicked.
     pub fn spawn(spec: CfgSpec, disk: SimDisk, paths: &Paths) -> Result<Host, String> {
-        let handle = CfgHandle::build(&spec, paths).map_err(|e| format!("HARNESS: {}", e))?;
+        // (install first: a Config reads the user-data location when it is created)
         disk.install();
+        let handle = CfgHandle::build(&spec, paths).map_err(|e| format!("HARNESS: {}", e))?;
         let ctx = guarded(|| RitiContext::new_with_config(handle.get()))?;
         Ok(Host {
             spec,
@@ -180,9 +181,9 @@ impl Host {
     pub fn restart(&mut self, paths: &Paths) -> Result<(), String> {
         self.ctx = None;
         self.last = Obs::idle_empty();
+        self.disk.install();
         self.handle =
             CfgHandle::build(&self.spec, paths).map_err(|e| format!("HARNESS: {}", e))?;
-        self.disk.install();
         let handle = &self.handle;
         let ctx = guarded(|| RitiContext::new_with_config(handle.get()))?;
         self.ctx = Some(ctx);
@@ -254,8 +255,8 @@ impl Host {
     }
 
     pub fn update(&mut self, spec: CfgSpec, paths: &Paths) -> Result<(), String> {
-        let handle = CfgHandle::build(&spec, paths).map_err(|e| format!("HARNESS: {}", e))?;
         self.disk.install();
+        let handle = CfgHandle::build(&spec, paths).map_err(|e| format!("HARNESS: {}", e))?;
         let c = self.ctx.as_mut().expect("host is dead");
         guarded(|| c.update_engine(handle.get()))?;
         self.spec = spec;
